@@ -21,6 +21,7 @@ type FuncVC struct {
 func verifyFunction(ld *Loaded, sp *Specs, key string) (out *FuncVC) {
 	rep := &FuncReport{Key: key}
 	vc := newVC(key)
+	vc.sp = sp
 	out = &FuncVC{Key: key, VC: vc, Report: rep}
 	defer func() {
 		if r := recover(); r != nil {
@@ -92,6 +93,10 @@ func verifyFunction(ld *Loaded, sp *Specs, key string) (out *FuncVC) {
 	env := x.baseEnv(fr, st)
 	for _, r := range ct.Requires {
 		vc.assume(tTrue, x.evalClause(env, r))
+	}
+	for _, r := range ct.Derives {
+		vc.assume(tTrue, x.evalClause(env, r))
+		addUnique(&rep.ContractUsed, "derived fact (justified by the property's lemmas): "+r.Src)
 	}
 	// vacuity canary: the assumptions at entry must be satisfiable
 	vc.obls = append(vc.obls, &Obligation{Name: key + "/vacuity[entry]", Kind: "vacuity", Prefix: len(vc.lines), Reach: tTrue, Goal: tFalse, Func: key, Expect: "sat", Info: "requires and input assumptions are satisfiable"})
